@@ -1,3 +1,5 @@
+//go:build !no_c18
+
 package props
 
 import (
